@@ -214,7 +214,15 @@ class Interp:
                     if len(found) == 1 and not stored:
                         try:
                             dummy = type(fr.func)(fr.func.module, cname, ast.parse('def _():\n pass').body[0], rel)
-                            val = self.ex(found[0], Frame(dummy, {}))
+                            # names of the class body visible in the expression: other class-level constants
+                            env = {}
+                            self.modconst[key] = None
+                            for x in ast.walk(found[0]):
+                                if isinstance(x, ast.Name) and any(isinstance(s_, ast.Assign) and len(s_.targets) == 1 and isinstance(s_.targets[0], ast.Name) and s_.targets[0].id == x.id for s_ in c.body):
+                                    sub = self.class_constant(S(cname), x.id, fr)
+                                    if sub is not None:
+                                        env[x.id] = sub
+                            val = self.ex(found[0], Frame(dummy, env))
                         except Unknown:
                             val = None
         self.modconst[key] = val
@@ -823,6 +831,15 @@ class Interp:
             if isinstance(s.value, ast.Constant):
                 return
             v = s.value
+            if (isinstance(v, ast.Call) and isinstance(v.func, ast.Name) and v.func.id == 'setattr' and 'setattr' not in fr.env and len(v.args) == 3 and not v.keywords):
+                name = self.ex(v.args[1], fr)
+                if name[0] == 'const' and isinstance(name[1], str):
+                    # setattr(obj, 'name', value)  ==  obj.name = value
+                    tgt = ast.Attribute(value=v.args[0], attr=name[1], ctx=ast.Store())
+                    ast.copy_location(tgt, v)
+                    self.assign(tgt, self.ex(v.args[2], fr), fr, s)
+                    return
+                raise Unknown('setattr with a non-constant attribute name')
             if (isinstance(v, ast.Call) and isinstance(v.func, ast.Attribute) and isinstance(v.func.value, ast.Name)
                     and v.func.attr in ('append', 'extend', 'add', 'update') and v.func.value.id in fr.env and len(v.args) == 1
                     and fr.env[v.func.value.id][0] not in ('sym', 'attr', 'bvar', 'idx') ):
